@@ -19,6 +19,7 @@ Record mcase := {
   mc_grids : list (list (Z * Z));     (* grid parameters of the call, in signature order *)
   mc_ps : list (Z * Z);               (* proportion parameters, in signature order *)
   mc_phi : list (Z * Z);
+  mc_valcmp : bool;                   (* false: compare the accept / reject decision only *)
   mc_concl : bool;                    (* also evaluate the theorem's conclusion on the model's own output *)
   mc_raised : bool;                   (* the implementation raised ValueError *)
   mc_ishape : list nat; mc_impl : list (Z * Z) }.
@@ -64,6 +65,7 @@ Definition mcheck (tol : Q) (c : mcase) : bool * Z :=
   match mmodel c, mc_raised c with
   | None, true => (true, (-10000)%Z)
   | Some (s, m), false =>
+      if negb (mc_valcmp c) then (true, (-10000)%Z) else
       let r := Dlists_close tol m (z2D (mc_impl c)) in
       (fst r && list_nat_eqb s (mc_ishape c) && (if mc_concl c then mconcl c m else true), snd r)
   | _, _ => (false, 1%Z)
